@@ -1,9 +1,9 @@
 (* C11 -- only the documented extent of caller buffers is read or written.
    Property theorems only: statement + exact + Print Assumptions. *)
 From Coq Require Import List ZArith Bool.
-From LJT Require Import model.Extent model.ExtentApi model.ExtentTmp model.ExtentRows model.ExtentHist gen.GenAlign gen.GenTail
+From LJT Require Import model.Extent model.ExtentApi model.ExtentTmp model.ExtentRows model.ExtentHist model.ExtentLanes gen.GenAlign gen.GenTail
   proofs.ExtentProofs proofs.ExtentYuvProofs proofs.ExtentApiProofs proofs.ExtentTmpProofs proofs.ExtentRowsProofs
-  proofs.ExtentHistProofs proofs.ExtentExamples.
+  proofs.ExtentHistProofs proofs.ExtentLanesProofs proofs.ExtentExamples.
 Import ListNotations.
 Local Open Scope Z_scope.
 
@@ -201,6 +201,41 @@ Theorem C11_row_ptr_int32_refuted :
     wrap_int32 (i * pitch) = i * pitch - 2 ^ 32 /\ wrap_int32 (i * pitch) < 0.
 Proof. exact row_ptr_int32_wraps. Qed.
 Print Assumptions C11_row_ptr_int32_refuted.
+
+(* SIMD lane models (chunking into vectors, zero-filled partial vectors, dummy sample, carried neighbours,
+   16-bit wrap and saturation) of the downsampling / fancy upsampling kernels equal the C loops on the columns
+   asked for, for EVERY width and V in {16 (SSE2), 32 (AVX2)}; the rest of what they produce is accounted for *)
+Theorem C11_h2v1_downsample_simd_eq_c : forall V row iw oc,
+  (0 < V)%nat -> (V mod 2 = 0)%nat -> bytes row ->
+  firstn oc (h2v1_downsample_simd V row iw oc) = h2v1_downsample_c row iw oc /\
+  length (h2v1_downsample_simd V row iw oc) = round_up_nat oc V /\
+  (forall j, (oc <= j)%nat -> rd (h2v1_downsample_simd V row iw oc) j = 0).
+Proof. exact h2v1_downsample_simd_eq_c. Qed.
+Print Assumptions C11_h2v1_downsample_simd_eq_c.
+
+Theorem C11_h2v1_fancy_simd_eq_c : forall V inp n,
+  (0 < V)%nat -> (2 <= n)%nat -> bytes inp -> ((n mod V)%nat <> 0%nat -> (n < length inp)%nat) ->
+  firstn (2 * n) (h2v1_fancy_simd V inp n) = h2v1_fancy_c inp n /\
+  length (h2v1_fancy_simd V inp n) = (2 * round_up_nat n V)%nat.
+Proof. exact h2v1_fancy_simd_eq_c. Qed.
+Print Assumptions C11_h2v1_fancy_simd_eq_c.
+
+Theorem C11_h2v2_fancy_simd_eq_c : forall V in0 in1 n,
+  (0 < V)%nat -> (2 <= n)%nat -> bytes in0 -> bytes in1 ->
+  ((n mod V)%nat <> 0%nat -> (n < length in0)%nat /\ (n < length in1)%nat) ->
+  firstn (2 * n) (h2v2_fancy_simd V in0 in1 n) = h2v2_fancy_c in0 in1 n /\
+  length (h2v2_fancy_simd V in0 in1 n) = (2 * round_up_nat n V)%nat.
+Proof. exact h2v2_fancy_simd_eq_c. Qed.
+Print Assumptions C11_h2v2_fancy_simd_eq_c.
+
+Theorem C11_lanes_stay_in_padded_rows : forall V n m_in m_out,
+  (V = 16 \/ V = 32)%nat -> (n <= m_in)%nat -> (2 * n <= m_out)%nat ->
+  (fu_input_read V n <= round_up_nat m_in 64 /\
+   (forall k, fu_input_dummy V n = Some k -> k < round_up_nat m_in 64) /\
+   fu_output_written V n <= round_up_nat m_out 64 /\
+   ds_output_written V n <= round_up_nat m_in 64)%nat.
+Proof. exact lanes_stay_in_padded_rows. Qed.
+Print Assumptions C11_lanes_stay_in_padded_rows.
 
 (* (5) The property itself is extent_respected applied to the accesses the COMPILED LIBRARY
    performs on caller memory (machine loads and stores).  That function is not an object
